@@ -1,8 +1,9 @@
-(* C09 - the service constructor's rollback: whenever Topology.add_network_service raises
-   TopologyException - whichever interface of the list is the rejected one - the graph is what it was. *)
+(* C09 - the service constructor's rollback: whenever Topology.add_network_service raises - whatever the
+   exception, whichever interface of the list is the rejected one - the graph is what it was.  Also the
+   composite builders with a rollback: add_facility, add_switch (when it has one), peer. *)
 From Coq Require Import List NArith Bool Lia.
 From FIM Require Import Base.Str Gen.T9Names Model.T9Graph Model.T9Ops Proofs.T9Monad Proofs.T9Simple Proofs.T9Ext
-     Proofs.T9Peers Proofs.T9Rollback Proofs.T9Connect Proofs.T9CompFresh.
+     Proofs.T9Peers Proofs.T9Rollback Proofs.T9Connect.
 Import ListNotations.
 Open Scope N_scope.
 
@@ -42,29 +43,25 @@ Proof.
 Qed.
 
 (* ---------------------------------------------------------------- the loop *)
-Lemma handler_never_ok (done : list iface_h) ns s s' u :
-  (for_each done disconnect_interface ;;; remove_ns_with_cps_and_links ns ;;; @raise unit ETopology) s
-  <> (s', Ok u).
+Lemma handler_never_ok (done : list iface_h) ns e s s' u : rollback_service ns done e s <> (s', Ok u).
 Proof.
-  unfold bind. destruct (for_each done disconnect_interface s) as [s1 [a|e]]; [|discriminate].
-  destruct (remove_ns_with_cps_and_links ns s1) as [s2 [b|e]]; discriminate.
+  unfold rollback_service, bind. destruct (for_each done disconnect_interface s) as [s1 [a|e1]]; [|discriminate].
+  destruct (remove_ns_with_cps_and_links ns s1) as [s2 [b|e2]]; discriminate.
 Qed.
 
 Lemma connect_all_rollback fl g nsn ty (U : list N) :
   closed g -> NoDup (ids g) ->
-  forall todo cs s s',
+  forall todo cs s s' e,
     good g nsn cs -> sg s = ext g nsn cs -> incl (new_ids nsn cs) U -> incl (sfresh s) U ->
     (forall i, In i todo -> ~ In (ih_id i) U /\ iface_typed g i) ->
-    connect_all fl (nid nsn) ty todo (map k_if cs) s = (s', Err ETopology) -> sg s' = g.
+    connect_all fl (nid nsn) ty todo (map k_if cs) s = (s', Err e) -> sg s' = g.
 Proof.
-  intros Hcl Hndg. induction todo as [|i r IH]; intros cs s s' G Hsg HU Hfr Hifs H.
+  intros Hcl Hndg. induction todo as [|i r IH]; intros cs s s' e G Hsg HU Hfr Hifs H.
   - simpl in H. discriminate.
   - simpl in H. unfold bind at 1 in H.
     set (B := guardrails ty i ;;; connect_interface fl (nid nsn) i) in *.
-    set (Hd := for_each (map k_if cs) disconnect_interface ;;;
-               remove_ns_with_cps_and_links (nid nsn) ;;; @raise unit ETopology) in *.
-    unfold catch_topology in H.
-    destruct (B s) as [s0 [u|e]] eqn:EB.
+    unfold catch_any in H.
+    destruct (B s) as [s0 [u|e0]] eqn:EB.
     + (* connected: go on with one more connection *)
       unfold B in EB. apply bind_ok in EB as (s1 & u1 & Hg & Hc).
       apply guardrails_ok in Hg as ->.
@@ -72,33 +69,40 @@ Proof.
       destruct u.
       destruct (connect_ok_shape fl g nsn cs U i s s0 Hcl Hndg G Hsg HU Hfr HiU Hty Hc)
         as (c & Hci & Hsg' & G' & HU' & Hfr').
-      apply (IH (cs ++ [c]) s0 s'); auto.
+      apply (IH (cs ++ [c]) s0 s' e); auto.
       * intros j Hj. apply Hifs. right; auto.
       * rewrite map_app. simpl. rewrite Hci. exact H.
-    + destruct e; try (inversion H; fail).
-      (* TopologyException: the handler runs in the state the body left, which is the loop's state *)
-      assert (Hs0 : sg s0 = ext g nsn cs).
-      { rewrite <- Hsg. apply (step_topo_atomic fl (nid nsn) ty i s s0). exact EB. }
-      destruct (Hd s0) as [s2 [u|e]] eqn:EH.
-      * exfalso. eapply handler_never_ok; eauto.
-      * inversion H; subst.
-        destruct s0 as [g0 fr0]. simpl in Hs0. subst g0.
-        unfold Hd in EH. rewrite (rollback_restores g nsn cs fr0 Hcl G) in EH.
-        inversion EH; subst. reflexivity.
+    + (* the body raised: the handler runs in the state the body left: the loop's state, possibly with
+         one ServicePort of a half-finished connect *)
+      destruct (rollback_service (nid nsn) (map k_if cs) e0 s0) as [s2 [u|e2]] eqn:EH.
+      { exfalso. eapply handler_never_ok; eauto. }
+      inversion H; subst s2 e2. clear H.
+      destruct s0 as [g0 fr0].
+      destruct (step_fail_shape fl g nsn cs ty i s (mkSt g0 fr0) e0 Hcl G Hsg EB) as [Hs0|(o & Hs0 & Hnew & Hcls)];
+        simpl sg in Hs0; subst g0.
+      * rewrite <- (extO_nil g nsn cs) in EH.
+        rewrite (rollback_restores g nsn cs [] fr0 e0 Hcl) in EH; [inversion EH; reflexivity|].
+        constructor; auto; [rewrite app_nil_r; apply (gd_nodup _ _ _ G)|intros o' []].
+      * assert (HE : mkGraph (gnodes (ext g nsn cs) ++ [o])
+                             (gedges (ext g nsn cs) ++ [mkEdge (nid nsn) (nid o) rConnects]) = extO g nsn cs [o]).
+        { unfold extO, ext, tail_nodes, tail_edges. cbn [gnodes gedges]. rewrite <- !app_assoc. reflexivity. }
+        rewrite HE in EH.
+        rewrite (rollback_restores g nsn cs [o] fr0 e0 Hcl) in EH; [inversion EH; reflexivity|].
+        constructor; auto.
+        -- cbn [map]. rewrite ids_ext in Hnew. rewrite app_assoc. apply NoDup_snoc; [apply (gd_nodup _ _ _ G)|exact Hnew].
+        -- intros o' [<-|[]]. exact Hcls.
 Qed.
 
 (* ---------------------------------------------------------------- Topology.add_network_service *)
-Lemma service_rollback fl name node_id nstype ifs pure g fresh s' :
+Lemma service_rollback fl name node_id nstype ifs pure g fresh s' e :
   wf_graph g = true -> ifaces_typed g ifs = true -> supply_apart node_id fresh ifs = true ->
-  op_add_service fl name node_id nstype ifs pure (mkSt g fresh) = (s', Err ETopology) ->
+  op_add_service fl name node_id nstype ifs pure (mkSt g fresh) = (s', Err e) ->
   sg s' = g.
 Proof.
   intros Hwf Hty Hsup H.
   assert (Hcl := wf_closed g Hwf). assert (Hnd := wf_nodup g Hwf).
   unfold op_add_service, new_service in H.
-  unfold bind at 1 in H.
-  destruct (id_or_draw node_id (mkSt g fresh)) as [s0 [id|e]] eqn:Eid.
-  2:{ inversion H; subst s'. apply (no_mut_id_or_draw node_id _ _ _ Eid). }
+  apply bind_err_cases in H as [H|(s0 & id & Eid & H)]; [exact (no_mut_id_or_draw _ _ _ _ H)|].
   assert (Hs0 : sg s0 = g /\ In id (potential_ids node_id fresh) /\ incl (sfresh s0) (potential_ids node_id fresh)).
   { unfold potential_ids. destruct node_id as [x|]; simpl in Eid.
     - unfold ret in Eid. inversion Eid; subst. simpl. split; auto. split; auto. intros y Hy; right; auto.
@@ -106,35 +110,25 @@ Proof.
       intros y Hy; right; auto. }
   destruct Hs0 as (Hg0 & HidU & HfrU).
   destruct nstype as [ty|]; [|inversion H; subst s'; exact Hg0].
-  unfold bind at 1 in H. destruct (guard (name_ok rule_svc name) EValue s0) as [s1 [u1|e]] eqn:E1.
-  2:{ inversion H; subst s'. rewrite <- Hg0. apply (no_mut_guard _ _ _ _ _ E1). }
+  apply bind_err_cases in H as [H|(s1 & u1 & E1 & H)]; [rewrite <- Hg0; exact (no_mut_guard _ _ _ _ _ H)|].
   apply guard_ok in E1 as [-> _].
-  unfold bind at 1 in H. destruct (opt_raise pure s0) as [s1 [u2|e]] eqn:E2.
-  2:{ inversion H; subst s'. rewrite <- Hg0. apply (no_mut_opt_raise _ _ _ _ E2). }
-  assert (s1 = s0) as ->.
-  { destruct pure; simpl in E2; unfold raise, ret in E2; inversion E2; reflexivity. }
-  unfold bind at 1 in H.
-  destruct ((taken <- ask (fun g0 => Ok (name_taken g0 cNS name));; guard (negb taken) EQuery) s0)
-    as [s1 [u3|e]] eqn:E3.
-  2:{ inversion H; subst s'. rewrite <- Hg0.
-      refine ((_ : no_mut (taken <- ask (fun g0 => Ok (name_taken g0 cNS name));; guard (negb taken) EQuery)) _ _ _ E3).
-      nm. }
+  apply bind_err_cases in H as [H|(s1 & u2 & E2 & H)]; [rewrite <- Hg0; exact (no_mut_opt_raise _ _ _ _ H)|].
+  apply opt_raise_ok in E2 as ->.
+  apply bind_err_cases in H as [H|(s1 & u3 & E3 & H)].
+  { rewrite <- Hg0.
+    refine ((_ : no_mut (taken <- ask (fun g0 => Ok (name_taken g0 cNS name));; guard (negb taken) EQuery)) _ _ _ H).
+    nm. }
   apply bind_ok in E3 as (sx & tk & Ea & Eg). apply ask_ok in Ea as [-> _]. apply guard_ok in Eg as [-> _].
-  unfold bind at 1 in H.
   set (nsn := mkNode id cNS name ty 0) in *.
-  destruct (m_add_node nsn s0) as [s1 [u4|e]] eqn:E4.
-  2:{ inversion H; subst s'. unfold m_add_node, mutate in E4. destruct (g_add_node nsn (sg s0)) eqn:Eg; [discriminate|].
-      inversion E4; subst. apply g_add_node_err in Eg. discriminate. }
+  apply bind_err_cases in H as [H|(s1 & u4 & E4 & H)].
+  { rewrite <- Hg0. exact (atomic_mutate (fun _ => True) _ _ _ _ I H). }
   apply mutate_ok in E4 as (g1 & Hg1 & ->). rewrite Hg0 in Hg1. apply add_node_result in Hg1 as [Hnew ->].
   simpl nid in Hnew.
-  unfold bind at 1 in H. unfold ret at 1 in H.
-  unfold bind at 1 in H.
-  destruct (connect_all fl id ty ifs [] (mkSt (mkGraph (gnodes g ++ [nsn]) (gedges g)) (sfresh s0)))
-    as [s2 [u5|e]] eqn:E5.
-  { unfold ret in H. discriminate. }
-  inversion H; subst e s2. clear H.
+  apply bind_err_cases in H as [H|(s1 & u5 & E5 & H)]; [discriminate|].
+  apply ret_ok in E5 as [-> _].
+  apply bind_err_cases in H as [H|(s1 & u6 & E6 & H)]; [|unfold ret in H; discriminate].
   apply (connect_all_rollback fl g nsn ty (potential_ids node_id fresh) Hcl Hnd ifs []
-           (mkSt (mkGraph (gnodes g ++ [nsn]) (gedges g)) (sfresh s0)) s').
+           (mkSt (mkGraph (gnodes g ++ [nsn]) (gedges g)) (sfresh s0)) s' e).
   - constructor.
     + unfold new_ids, conn_ids; simpl. apply NoDup_snoc; auto. apply has_node_false_In; auto.
     + reflexivity.
@@ -145,124 +139,5 @@ Proof.
   - unfold new_ids; simpl. intros y [<-|[]]. exact HidU.
   - exact HfrU.
   - intros i Hi. split; [eapply supply_apart_prop; eauto | eapply ifaces_typed_prop; eauto].
-  - exact E5.
+  - exact H.
 Qed.
-
-(* ---------------------------------------------------------------- add_facility: the part that is atomic *)
-Lemma add_facility_first_step fl name node_id d_ns d_int d_intk nstype pure_ns ports pure_single s s' e :
-  op_add_facility fl name node_id d_ns d_int d_intk nstype pure_ns ports pure_single s = (s', Err e) ->
-  (forall s1 id, op_add_node fl name node_id (Some tFacility) None s <> (s1, Ok id)) ->
-  sg s' = sg s.
-Proof.
-  intros H Hno. unfold op_add_facility in H. unfold bind at 1 in H.
-  destruct (op_add_node fl name node_id (Some tFacility) None s) as [s1 [id|e1]] eqn:E.
-  - exfalso. eapply Hno; eauto.
-  - inversion H; subst. eapply (op_add_node_atomic fl name node_id (Some tFacility) None s s' e); auto.
-Qed.
-
-Lemma add_switch_first_step fl name node_id d_ns d_intk nstype pure_ns nports pure_port s s' e :
-  op_add_switch fl name node_id d_ns d_intk nstype pure_ns nports pure_port s = (s', Err e) ->
-  (forall s1 id, op_add_node fl name node_id (Some tSwitch) None s <> (s1, Ok id)) ->
-  sg s' = sg s.
-Proof.
-  intros H Hno. unfold op_add_switch in H. unfold bind at 1 in H.
-  destruct (op_add_node fl name node_id (Some tSwitch) None s) as [s1 [id|e1]] eqn:E.
-  - exfalso. eapply Hno; eauto.
-  - inversion H; subst. eapply (op_add_node_atomic fl name node_id (Some tSwitch) None s s' e); auto.
-Qed.
-
-(* peer: atomic when it is the first of its three steps (the port on the calling service) that is refused *)
-Lemma peer_first_step fl a b pure s s' e :
-  op_peer fl a b pure s = (s', Err e) ->
-  (forall an bn ca s1 id, node_name (sg s) a = Ok an -> node_name (sg s) b = Ok bn ->
-       service_iface_names (sg s) a = Ok ca ->
-       add_interface_cached fl a ca (an ++ dash ++ bn) None (Some tServicePort) pure s <> (s1, Ok id)) ->
-  sg s' = sg s.
-Proof.
-  intros H Hno. unfold op_peer in H.
-  apply bind_err_cases in H as [H|(s1 & an & H1 & H)]; [exact (no_mut_ask _ _ _ _ H)|].
-  apply ask_ok in H1 as [-> Han].
-  apply bind_err_cases in H as [H|(s1 & bn & H1 & H)]; [exact (no_mut_ask _ _ _ _ H)|].
-  apply ask_ok in H1 as [-> Hbn].
-  apply bind_err_cases in H as [H|(s1 & ca & H1 & H)]; [exact (no_mut_ask _ _ _ _ H)|].
-  apply ask_ok in H1 as [-> Hca].
-  apply bind_err_cases in H as [H|(s1 & cb & H1 & H)]; [exact (no_mut_ask _ _ _ _ H)|].
-  apply ask_ok in H1 as [-> Hcb].
-  apply bind_err_cases in H as [H|(s1 & i1 & H1 & H)].
-  - unfold add_interface_cached in H.
-    apply bind_err_cases in H as [H|(s1 & u & H1 & H)]; [exact (no_mut_guard _ _ _ _ _ H)|].
-    apply guard_ok in H1 as [-> _].
-    refine (new_interface_atomic fl _ None a (Some tServicePort) pure s s' e _ H).
-    apply (service_iface_names_found _ _ _ Hca).
-  - exfalso. eapply (Hno an bn ca); eauto.
-Qed.
-
-(* ---------------------------------------------------------------- non-vacuity instances *)
-From Coq Require Import String.
-From FIM Require Import Proofs.T9Refuted.
-
-(* two dedicated ports get connected, the third list element repeats the first: "already connected",
-   the handler disconnects both and removes the service *)
-Definition ex_ifs : list iface_h :=
-  [mkIface 8 (S "nic1-p1"); mkIface 9 (S "nic1-p2"); mkIface 8 (S "nic1-p1")].
-
-Lemma ex_service_rollback_hyps :
-  wf_graph g_two_nodes = true /\ ifaces_typed g_two_nodes ex_ifs = true /\ supply_apart None supply ex_ifs = true.
-Proof. vm_compute. auto. Qed.
-
-Lemma ex_service_rollback_runs :
-  let r := op_add_service Experiment (S "s1") None (Some tL2Bridge) ex_ifs None (mkSt g_two_nodes supply) in
-  snd r = Err ETopology /\ sg (fst r) = g_two_nodes /\ List.length (sfresh (fst r)) = 3%nat.
-Proof. vm_compute. auto. Qed.
-
-(* the same call without the repeated interface succeeds and adds 5 nodes: the loop really mutates *)
-Lemma ex_service_ok :
-  let r := op_add_service Experiment (S "s1") None (Some tL2Bridge) (firstn 2 ex_ifs) None (mkSt g_two_nodes supply) in
-  snd r = Ok 50 /\ List.length (gnodes (sg (fst r))) = 14%nat.
-Proof. vm_compute. auto. Qed.
-
-(* L2PTP refuses a shared port at position 1, after the dedicated port at position 0 was connected *)
-Lemma ex_service_guardrail :
-  let r := op_add_service Experiment (S "s1") None (Some tL2PTP)
-             [mkIface 8 (S "nic1-p1"); mkIface 4 (S "nic1-p1")] None (mkSt g_two_nodes supply) in
-  snd r = Err ETopology /\ sg (fst r) = g_two_nodes.
-Proof. vm_compute. auto. Qed.
-
-Lemma ex_add_node_dup :
-  let r := op_add_node Experiment (S "n1") None (Some tVM) None (mkSt g_two_nodes supply) in
-  snd r = Err ETopology /\ sg (fst r) = g_two_nodes.
-Proof. vm_compute. auto. Qed.
-
-Lemma ex_add_link_ok_hyp :
-  ifaces_exist g_two_nodes [mkIface 4 (S "nic1-p1"); mkIface 8 (S "nic1-p1")].
-Proof.
-  intros i [<-|[<-|[]]]; eexists; vm_compute; reflexivity.
-Qed.
-
-(* ---------------------------------------------------------------- statements in the shape of Properties/C09.v *)
-Lemma add_node_atomic_all fl name node_id ntype pure s s' e :
-  op_add_node fl name node_id ntype pure s = (s', Err e) -> sg s' = sg s.
-Proof. apply op_add_node_atomic. exact I. Qed.
-Lemma add_node_service_atomic_all fl pn name node_id nstype pure s s' e :
-  op_add_node_service fl pn name node_id nstype pure s = (s', Err e) -> sg s' = sg s.
-Proof. apply op_add_node_service_atomic. exact I. Qed.
-Lemma add_interface_atomic_all fl ns name node_id itype pure s s' e :
-  op_add_interface fl ns name node_id itype pure s = (s', Err e) -> sg s' = sg s.
-Proof. apply op_add_interface_atomic. exact I. Qed.
-Lemma add_link_atomic_existing fl name node_id ltype ifs pure s s' e :
-  (forall l, ifs = Some l -> ifaces_exist (sg s) l) ->
-  op_add_link fl name node_id ltype ifs pure s = (s', Err e) -> sg s' = sg s.
-Proof. apply op_add_link_atomic_if_ifaces_exist. Qed.
-Lemma names_translated : t9_gen_ok = true.
-Proof. reflexivity. Qed.
-
-(* a two-port switch is built completely (node, service, p1, p2) when nothing is rejected *)
-Lemma ex_switch_ok :
-  let r := op_add_switch Experiment (S "sw1") None 0 [] tVLAN None 2 None (mkSt g_two_nodes supply) in
-  snd r = Ok 50 /\ List.length (gnodes (sg (fst r))) = 13%nat.
-Proof. vm_compute. auto. Qed.
-
-Lemma ex_peer_ok :
-  let r := op_peer Experiment 30 31 None (mkSt (mkGraph (firstn 2 (gnodes g_two_services)) []) supply) in
-  snd r = Ok tt /\ List.length (gnodes (sg (fst r))) = 5%nat /\ List.length (gedges (sg (fst r))) = 4%nat.
-Proof. vm_compute. auto. Qed.
